@@ -76,8 +76,10 @@ def run_harness(impl, args, timeout=600):
     return rc, out, err
 
 
-def run_model(model, text, timeout=900):
-    rc, out, err = vlib.sh([model], inp=text, timeout=timeout)
+def run_model(model, text, timeout=900, short=False):
+    """short: no second round of the IR counterexample search (used by the audit, whose damaged dumps need no input)"""
+    env = dict(os.environ, C05_IR_SHORT="1") if short else None
+    rc, out, err = vlib.sh([model], inp=text, timeout=timeout, env=env)
     res = {}
     for line in out.split("\n"):
         t = line.split(None, 3)
@@ -126,11 +128,15 @@ def corrupt_dump(block_text, kind, rng):
         lines[i] = _re.sub(r" a(\d+):", lambda m: " a%d:" % ((int(m.group(1)) + 1 + rng.randrange(14)) % 16), lines[i], count=1)
     elif kind == "by-reference-copy-stored-elsewhere":
         # the copy of a by-reference argument lands 16 bytes away from the temporary whose address is passed
-        c = [i for i in tix if _re.match(r"T - mov s-?\d+ r1\.\d+ 16 0 16", lines[i]) and i > 0 and " op ARGTMP|" in lines[i - 1]]
+        # (the store goes through a register that holds the address of ANOTHER place: RaIRModel.sa_step / sa_from must notice)
+        c = [i for i in tix if _re.match(r"T - mov t\d+:-?\d+ r1\.\d+ 16 0 16", lines[i])]
         if not c:
             return None
         i = rng.choice(c)
-        lines[i] = _re.sub(r"T - mov s(-?\d+) ", lambda m: "T - mov s%d " % (int(m.group(1)) + 16), lines[i], count=1)
+        if rng.random() < 0.5:
+            lines[i] = _re.sub(r"T - mov t(\d+):(-?\d+) ", lambda m: "T - mov t%s:%d " % (m.group(1), int(m.group(2)) + 16), lines[i], count=1)
+        else:
+            lines[i] = _re.sub(r"T - mov t(\d+):", lambda m: "T - mov t%d:" % ((int(m.group(1)) + 1 + rng.randrange(14)) % 16), lines[i], count=1)
     else:
         return None
     return "\n".join(lines)
@@ -267,6 +273,28 @@ def run(ck):
     elif rc != 0 or arc != 0 or not m or alu.get("forms_never_compared") or any("assemble-error" in u or "no-id" in u for u in alu_unsup):
         ck.violation("C05/alu-semantics", "the comparison of alu_sem with the host CPU did not cover every tagged mnemonic/size/form: %s %s" % (alu, (err + aerr)[-200:]),
                      {"broken": "c05_harness alu / IDIOM_SPEC"}, no_input=True)
+
+    # ------------------------------------------------------------------ the inserted-move whitelist of the dumper vs the host CPU
+    # every instruction form target_move accepts (mov/movzx/xchg, legacy SSE, VEX, EVEX moves, kmovq; register, load, save) is
+    # described by target_move AND executed on the host on random register/stack contents; the extracted tstep must turn the
+    # same contents into the same destination register, source register and stack window - this ties the width / keep /
+    # extension parameters of the T lines (what the proven validator believes about an inserted instruction) to the CPU
+    rc, out, err = vlib.sh([impl, "moves", str(ck.seed)], timeout=300)
+    mrc, mout, merr = vlib.sh([model], inp=out, timeout=600)
+    moves = {"harness_rc": rc, "executions": len([l for l in out.split("\n") if l.startswith("V ")])}
+    mv_bad = [l for l in mout.split("\n") if l.startswith("VR bad")]
+    mv_unsup = [l[len("VR unsupported "):] for l in mout.split("\n") if l.startswith("VR unsupported")]
+    mm = _re.search(r"VR summary compared_equal=(\d+) bad=(\d+) shapes=(\d+)", mout)
+    if mm:
+        moves.update({"compared_equal": int(mm.group(1)), "differ": int(mm.group(2)), "t_line_shapes": int(mm.group(3))})
+    moves["not_accepted_or_not_executable"] = mv_unsup
+    ck.log("inserted moves vs host CPU: %s" % moves)
+    if mv_bad:
+        ck.violation("C05/move-semantics", "an inserted move is not what its T line says: %s" % mv_bad[0][7:400],
+                     {"cmd": "c05_harness moves %d | c05 driver" % ck.seed, "line": mv_bad[0]})
+    elif rc != 0 or mrc != 0 or not mm or moves.get("t_line_shapes", 0) < 12 or mv_unsup:
+        ck.violation("C05/move-semantics", "the comparison of the move whitelist with the host CPU did not run completely: %s %s" % (moves, (err + merr)[-200:]),
+                     {"broken": "c05_harness moves / target_move"}, no_input=True)
 
     # ------------------------------------------------------------------ directed probes (recorded defects)
     features = ALL_FEATURES
@@ -604,7 +632,7 @@ def run(ck):
     for kind in ("drop-inserted-move", "shift-reload-slot", "retarget-inserted-move", "stack-argument-through-wrong-register", "by-reference-copy-stored-elsewhere"):
         src_blocks = sa_blocks if kind == "stack-argument-through-wrong-register" else byref_blocks if kind == "by-reference-copy-stored-elsewhere" else audit_blocks
         texts = [t for t in (corrupt_dump(b, kind, arng) for b in src_blocks) if t]
-        _, cres, _ = run_model(model, "".join(texts), timeout=900) if texts else (0, {}, "")
+        _, cres, _ = run_model(model, "".join(texts), timeout=900, short=True) if texts else (0, {}, "")
         hist = {}
         for v in cres.values():
             hist[reason_of(v)] = hist.get(reason_of(v), 0) + 1
@@ -629,12 +657,12 @@ def run(ck):
                  "straight-line, diamonds, loops, irreducible jumps; mul/div/shift-by-cl fixed registers, partial writes, same-register idioms, "
                  "register-or-memory operands); a program is non-trivial when the allocator inserted at least one instruction or replaced a register "
                  "operand by a frame slot; every program is validated by the extracted validator AND executed on %d inputs against the interpreter" % inputs,
-         "samples": samples, "refusal_histogram": refusal_hist, "refusal_audit": audit, "stream": stats, "a64_stream": a64, "x86_32_stream": x32, "cfg_skeletons": skel, "unsupported": unsupported_why, "probes": probe_results, "generator_features": features, "alu_semantics_vs_host": alu,
+         "samples": samples, "refusal_histogram": refusal_hist, "refusal_audit": audit, "stream": stats, "a64_stream": a64, "x86_32_stream": x32, "cfg_skeletons": skel, "unsupported": unsupported_why, "probes": probe_results, "generator_features": features, "alu_semantics_vs_host": alu, "inserted_moves_vs_host": moves,
          "level_detail": "translation validation: PROVED in Coq - an accepted (source, allocated) pair behaves alike for every input, every instruction semantics respecting the uses/defs and every initial register/stack content, and terminates alike; COMPARED per run - every generated program is allocated by the real allocator, validated by the extracted validator, and (x86-64) executed against a source-level interpreter; the programs are generated from VERIF_SEED plus the exhaustive list of CFG skeletons of up to 5 blocks (thorough tier: all of them)",
          "traces_validated_against_impl": stats["validated_ok"]},
         assumptions=["theorems are about the RaIR model; the dumper (harness/c05_harness.cpp) is trusted to print the node lists, to hand the raw facts of "
                      "InstAPI::query_rw_info + the virtual register size to the extracted classify/idiom_of (proved partial-write rule; idiom classes from a generated id table, their value semantics compared with the host CPU on every run), to strip "
-                     "prolog/epilog (compared with emit_prolog/emit_epilog of the final frame) and to classify inserted instructions (mov/movzx/xchg only)",
+                     "prolog/epilog (compared with emit_prolog/emit_epilog of the final frame) and to describe inserted instructions (a whitelist of move/load/save/swap forms; every x86 form of it is executed on the host CPU on each run and compared with the extracted tstep on whole registers and a stack window); which register holds the stack-argument address / the address of a by-reference temporary, and that the frame pointer is never defined, is decided by extracted proven functions (sa_step, reg_untouched), not by the dumper",
                      "instruction semantics are abstracted to uses/defs (their truth is C12's subject); flags are six pseudo registers",
                      "AArch64 (GP w/x and 128-bit vector registers, calls through a register with register and stack arguments) is validated but NOT executed (no AArch64 CPU/emulator on this host); x86-64 GP virtual registers of 1/2/4/8 bytes, calls of C helpers with register and stack arguments; 16-byte vector registers (SSE2 integer subset), AVX and AVX-512 functions with 32- and 64-byte vectors (32 vector registers), 64-bit mask registers and a re-aligned stack, annotated jump tables, calls of SysV and Windows-x64 callees; x86-32 (cdecl/fastcall; validated, not executed); or immediates as call arguments in this version (function arguments in registers and on the stack are covered)",
                      "generated programs never read a virtual register beyond its size and define every register on every path"],
